@@ -1547,6 +1547,29 @@ def _drain(ex, it):
         out.append(r.items[0])
 
 
+@model(r'^<.* as Iterator>::(max|min)$')
+def m_iter_max_min(ex, callee, args):
+    # Iterator::max / min over integers: None for an empty iterator, otherwise the greatest / least element
+    xs = [deref_all(x) for x in _drain(ex, get_iter(args[0]))]
+    if not xs:
+        return none()
+    if not all(isinstance(x, BV) for x in xs):
+        raise Unsupported('Iterator::max/min over %r' % (xs[0],))
+    want_max = callee.endswith('::max')
+    acc = xs[0]
+    for x in xs[1:]:
+        bits, signed = INT_TYPES[acc.ty]
+        if isinstance(acc.v, int) and isinstance(x.v, int):
+            take = (x.v >= acc.v) if want_max else (x.v < acc.v)
+            acc = x if take else acc
+        else:
+            a, b = to_z3bv(acc), to_z3bv(x)
+            ge = (b >= a) if signed else z3.UGE(b, a)
+            lt = (b < a) if signed else z3.ULT(b, a)
+            acc = BV(z3.If(ge if want_max else lt, b, a), acc.ty)
+    return some(acc)
+
+
 @model(r'^<.* as Iterator>::sum::<(usize|u64|i64|u32|i32|isize)>$')
 def m_iter_sum(ex, callee, args):
     ty = re.search(r'sum::<(\w+)>', callee).group(1)
